@@ -57,6 +57,14 @@ pub struct E1<'c> {
     /// poisoned until the next revision: requests involving them may see PropagatedPanic)
     pub cycle_panicked_in_rev: bool,
     pub fb_defect_seen: bool,
+    /// fault injection bookkeeping: the plan fired in the current step / a poisoned cycle head was
+    /// met after a fault in this revision
+    pub injected_now: bool,
+    pub poisoned_now: bool,
+    pub injected_in_rev: bool,
+    pub last_fault_cb: Option<Cb>,
+    /// a recorded finding has manifested: its after-effects are unspecified, stop the run
+    pub stop_run: bool,
 }
 
 pub fn expected_obs(ev: &mut Eval, prog: &Program, n: usize, arg: u32, deep: bool) -> Result<Obs, Abort> {
@@ -134,7 +142,7 @@ impl<'c> E1<'c> {
         fault::MASK.store(case.fault_mask, SeqCst);
         let db = SimDatabase::new(&case.prog, &world);
         let oracles = crate::oracles::for_case(case);
-        E1 { case, db: Some(db), world, out: RunOut::default(), step: 0, never: Default::default(), oracles, queries: 0, cycle_panicked_in_rev: false, fb_defect_seen: false }
+        E1 { case, db: Some(db), world, out: RunOut::default(), step: 0, never: Default::default(), oracles, queries: 0, cycle_panicked_in_rev: false, fb_defect_seen: false, injected_now: false, poisoned_now: false, injected_in_rev: false, last_fault_cb: None, stop_run: false }
     }
 
     fn db(&self) -> &SimDatabase {
@@ -186,6 +194,7 @@ impl<'c> E1<'c> {
 
     fn new_revision_note(&mut self) {
         self.cycle_panicked_in_rev = false;
+        self.injected_in_rev = false;
         self.out.revisions += 1;
     }
 
@@ -225,10 +234,17 @@ impl<'c> E1<'c> {
         let step = self.step;
         let mut info = crate::oracles::StepInfo::query(n, arg);
         let got_pk = got.as_ref().err().map(|p| panic_kind(p));
-        if let Some(PK::Injected(..)) = got_pk {
+        if let Some(PK::Injected(_, cb)) = got_pk {
+            self.last_fault_cb = Some(cb);
             self.out.digest = hash_str(self.out.digest, "injected");
             self.out.bump("fault_panic_reached_caller");
             info.injected = true;
+            self.injected_now = true;
+        } else if matches!(&got_pk, Some(PK::Cancelled(c)) if c == "PropagatedPanic") && self.injected_in_rev && prog.is_cyclic() {
+            self.out.digest = hash_str(self.out.digest, "poisoned_after_fault");
+            self.out.bump("poisoned_head_after_fault");
+            info.expected_panic = true;
+            self.poisoned_now = true;
         } else if bad_mode {
             // non-monotone cycle: a bounded panic or any value; never a hang (the run returns)
             match (&got, &got_pk) {
@@ -286,6 +302,13 @@ impl<'c> E1<'c> {
                             self.out.bump("poisoned_head_observed");
                             info.expected_panic = true;
                         }
+                        PK::Msg(m) if self.last_fault_cb == Some(Cb::Event) && (m.contains("cannot delete read-locked id") || m.contains("cannot delete write-locked id")) => {
+                            // recorded finding (C22): an event-callback panic while the stale outputs of a
+                            // re-executed query were being discarded left the old memo in place with
+                            // already-deleted outputs
+                            self.out.viol("stale_output_discard_interrupted", step, format!("node {n}: after a panic in the event callback during stale-output deletion the retry fails: {m}"));
+                            self.stop_run = true;
+                        }
                         other => self.out.viol("unexpected_panic", step, format!("node {n} arg {arg}: expected {e:?} got panic {other:?}")),
                     }
                 }
@@ -340,7 +363,137 @@ impl<'c> E1<'c> {
     fn mutating<R>(&mut self, f: impl FnOnce(&mut SimDatabase) -> R) -> Result<R, PK> {
         let db = self.db.as_mut().unwrap();
         let r = catch_unwind(AssertUnwindSafe(|| f(db)));
-        r.map_err(|p| panic_kind(&p))
+        let r = r.map_err(|p| panic_kind(&p));
+        if let Err(PK::Injected(_, cb)) = &r {
+            self.last_fault_cb = Some(*cb);
+            self.injected_now = true;
+            self.out.bump("fault_panic_reached_caller");
+            self.out.bump("fault_in_mutating_step");
+        }
+        r
+    }
+
+    fn panic_viol(&mut self, si: usize, what: String, pk: &PK) {
+        if !matches!(pk, PK::Injected(..)) {
+            self.out.viol("unexpected_panic", si, format!("{what}: {pk:?}"));
+        }
+    }
+
+    fn exec_step(&mut self, si: usize, st: &Step) {
+            match st {
+            Step::SetIn { i, f, v, d } => {
+                let (i, f) = (*i as usize, *f as usize);
+                let frozen = self.never.contains(&(i, f));
+                let r = self.mutating(|db| db.set_in(i, f, *v, *d));
+                self.new_revision_note();
+                match (frozen, r) {
+                    (false, Ok(())) => {
+                        self.world.ins[i][f] = *v;
+                        if *d == Some(Dur::Never) {
+                            self.never.insert((i, f));
+                            self.out.bump("field_frozen");
+                        }
+                    }
+                    (true, Err(PK::Msg(m))) if m.contains("never-changing inputs cannot be mutated") => self.out.bump("never_write_rejected"),
+                    (true, Ok(())) => self.out.viol("never_write_accepted", si, format!("write to frozen field ({i},{f}) did not panic")),
+                    (_, Err(pk)) => self.panic_viol(si, format!("set_in({i},{f}) panicked"), &pk),
+                }
+                self.drain(&crate::oracles::StepInfo::write(Some((i, f)), *d));
+            }
+            Step::Synthetic { d } => {
+                let d = *d;
+                let r = self.mutating(|db| salsa::Database::synthetic_write(db, dur(d)));
+                self.new_revision_note();
+                match (d, r) {
+                    (Dur::Never, Err(PK::Msg(_))) => self.out.bump("never_write_rejected"),
+                    (Dur::Never, Ok(())) => self.out.viol("never_write_accepted", si, "synthetic_write(NEVER_CHANGE) did not panic".into()),
+                    (_, Ok(())) => {}
+                    (_, Err(pk)) => self.panic_viol(si, "synthetic_write panicked".into(), &pk),
+                }
+                self.drain(&crate::oracles::StepInfo::write(None, Some(d)));
+            }
+            Step::Burst { n, d } => {
+                for _ in 0..*n {
+                    let d = *d;
+                    let r = self.mutating(|db| salsa::Database::synthetic_write(db, dur(d)));
+                    self.new_revision_note();
+                    if let (true, Err(pk)) = (d != Dur::Never, r) {
+                        self.panic_viol(si, "synthetic_write panicked".into(), &pk);
+                    }
+                    self.drain(&crate::oracles::StepInfo::write(None, Some(d)));
+                }
+            }
+            Step::SetExt { c, v, d } => {
+                self.db().shared.cells[*c as usize].store(*v, SeqCst);
+                self.world.cells[*c as usize] = *v;
+                let d = *d;
+                let r = self.mutating(|db| salsa::Database::synthetic_write(db, dur(d)));
+                self.new_revision_note();
+                if let (true, Err(pk)) = (d != Dur::Never, r) {
+                    self.panic_viol(si, "synthetic_write panicked".into(), &pk);
+                }
+                let mut info = crate::oracles::StepInfo::write(None, Some(d));
+                info.ext_cell = Some(*c as usize);
+                self.drain(&info);
+            }
+            Step::Query { n, arg } => self.do_query(*n as usize, *arg, false, false),
+            Step::QueryMk { n, deep } => self.do_query(*n as usize, 0, *deep, false),
+            Step::CloneQueryDrop { n, arg } => self.do_query(*n as usize, *arg, true, true),
+            Step::TriggerCancel => {
+                let r = self.mutating(|db| salsa::Database::trigger_cancellation(db));
+                if let Err(pk) = r {
+                    self.panic_viol(si, "trigger_cancellation panicked".into(), &pk);
+                }
+                self.drain(&crate::oracles::StepInfo::other("trigger_cancel"));
+            }
+            Step::TriggerLru => {
+                let r = self.mutating(|db| salsa::Database::trigger_lru_eviction(db));
+                if let Err(pk) = r {
+                    self.panic_viol(si, "trigger_lru_eviction panicked".into(), &pk);
+                }
+                self.drain(&crate::oracles::StepInfo::other("trigger_lru"));
+            }
+            Step::SetLru { cap } => {
+                let cap = *cap as usize;
+                let r = self.mutating(|db| set_lru_cap(db, cap));
+                if let Err(pk) = r {
+                    self.panic_viol(si, "set_lru_capacity panicked".into(), &pk);
+                }
+                let mut info = crate::oracles::StepInfo::other("set_lru");
+                info.lru_cap = Some(cap);
+                self.drain(&info);
+            }
+            Step::InternOutside { t, v } => {
+                let (t, v) = (*t as usize, *v);
+                let db = self.db();
+                let r = catch_unwind(AssertUnwindSafe(|| {
+                    let h = intern_any(db, t, v);
+                    db.sh().push(Ev::Intern { t: t % 4, v, id: h.id().as_bits(), in_query: false });
+                    h.v(db)
+                }));
+                match r {
+                    Ok(got) if got == v => {}
+                    Ok(got) => self.out.viol("value_mismatch", si, format!("interned {v} outside a query, read back {got}")),
+                    Err(p) => match panic_kind(&p) {
+                        PK::Injected(..) => {
+                            self.injected_now = true;
+                            self.out.bump("fault_panic_reached_caller")
+                        }
+                        pk => self.out.viol("unexpected_panic", si, format!("intern outside panicked: {pk:?}")),
+                    },
+                }
+                self.drain(&crate::oracles::StepInfo::other("intern_outside"));
+            }
+            Step::Accumulated { n, arg } => {
+                // bring the root up to date with a plain request first (accumulated() does the
+                // same fetch internally), then read the accumulated values
+                self.do_query(*n as usize, *arg, false, false);
+                crate::oracles::accumulated_step(self, *n as usize, *arg)
+            }
+            Step::LocalCancelQuery { .. } | Step::SnapshotRestore | Step::Hold { .. } => {
+                crate::oracles::special_step(self, st.clone());
+            }
+        }
     }
 
     pub fn run(mut self) -> RunOut {
@@ -354,116 +507,36 @@ impl<'c> E1<'c> {
             if st.is_mut() {
                 self.oracles.before_mut(self.db.as_ref().unwrap(), si, &mut self.out);
             }
-            match st {
-                Step::SetIn { i, f, v, d } => {
-                    let (i, f) = (*i as usize, *f as usize);
-                    let frozen = self.never.contains(&(i, f));
-                    let r = self.mutating(|db| db.set_in(i, f, *v, *d));
+            for _attempt in 0..4 {
+                self.injected_now = false;
+                self.poisoned_now = false;
+                self.exec_step(si, st);
+                if self.stop_run {
+                    break;
+                }
+                if self.injected_now {
+                    // the injected panic reached the caller of this step: the plan is disarmed,
+                    // retry the same step
+                    self.out.bump("fault_step_retried");
+                    self.injected_in_rev = true;
+                    fault::disarm();
+                    continue;
+                }
+                if self.poisoned_now {
+                    // cycle members interrupted by the fault stay poisoned for the rest of the
+                    // revision: start a new one and retry
+                    let r = self.mutating(|db| salsa::Database::synthetic_write(db, salsa::Durability::LOW));
                     self.new_revision_note();
-                    match (frozen, r) {
-                        (false, Ok(())) => {
-                            self.world.ins[i][f] = *v;
-                            if *d == Some(Dur::Never) {
-                                self.never.insert((i, f));
-                                self.out.bump("field_frozen");
-                            }
-                        }
-                        (true, Err(PK::Msg(m))) if m.contains("never-changing inputs cannot be mutated") => self.out.bump("never_write_rejected"),
-                        (true, Ok(())) => self.out.viol("never_write_accepted", si, format!("write to frozen field ({i},{f}) did not panic")),
-                        (_, Err(pk)) => self.out.viol("unexpected_panic", si, format!("set_in({i},{f}) panicked: {pk:?}")),
-                    }
-                    self.drain(&crate::oracles::StepInfo::write(Some((i, f)), *d));
-                }
-                Step::Synthetic { d } => {
-                    let d = *d;
-                    let r = self.mutating(|db| salsa::Database::synthetic_write(db, dur(d)));
-                    self.new_revision_note();
-                    match (d, r) {
-                        (Dur::Never, Err(PK::Msg(_))) => self.out.bump("never_write_rejected"),
-                        (Dur::Never, Ok(())) => self.out.viol("never_write_accepted", si, "synthetic_write(NEVER_CHANGE) did not panic".into()),
-                        (_, Ok(())) => {}
-                        (_, Err(pk)) => self.out.viol("unexpected_panic", si, format!("synthetic_write panicked: {pk:?}")),
-                    }
-                    self.drain(&crate::oracles::StepInfo::write(None, Some(d)));
-                }
-                Step::Burst { n, d } => {
-                    for _ in 0..*n {
-                        let d = *d;
-                        let r = self.mutating(|db| salsa::Database::synthetic_write(db, dur(d)));
-                        self.new_revision_note();
-                        if let (true, Err(pk)) = (d != Dur::Never, r) {
-                            self.out.viol("unexpected_panic", si, format!("synthetic_write panicked: {pk:?}"));
-                        }
-                        self.drain(&crate::oracles::StepInfo::write(None, Some(d)));
-                    }
-                }
-                Step::SetExt { c, v, d } => {
-                    self.db().shared.cells[*c as usize].store(*v, SeqCst);
-                    self.world.cells[*c as usize] = *v;
-                    let d = *d;
-                    let r = self.mutating(|db| salsa::Database::synthetic_write(db, dur(d)));
-                    self.new_revision_note();
-                    if let (true, Err(pk)) = (d != Dur::Never, r) {
-                        self.out.viol("unexpected_panic", si, format!("synthetic_write panicked: {pk:?}"));
-                    }
-                    let mut info = crate::oracles::StepInfo::write(None, Some(d));
-                    info.ext_cell = Some(*c as usize);
-                    self.drain(&info);
-                }
-                Step::Query { n, arg } => self.do_query(*n as usize, *arg, false, false),
-                Step::QueryMk { n, deep } => self.do_query(*n as usize, 0, *deep, false),
-                Step::CloneQueryDrop { n, arg } => self.do_query(*n as usize, *arg, true, true),
-                Step::TriggerCancel => {
-                    let r = self.mutating(|db| salsa::Database::trigger_cancellation(db));
                     if let Err(pk) = r {
-                        self.out.viol("unexpected_panic", si, format!("trigger_cancellation panicked: {pk:?}"));
+                        self.panic_viol(si, "synthetic_write after a fault panicked".into(), &pk);
                     }
-                    self.drain(&crate::oracles::StepInfo::other("trigger_cancel"));
+                    self.drain(&crate::oracles::StepInfo::write(None, Some(Dur::Low)));
+                    continue;
                 }
-                Step::TriggerLru => {
-                    let r = self.mutating(|db| salsa::Database::trigger_lru_eviction(db));
-                    if let Err(pk) = r {
-                        self.out.viol("unexpected_panic", si, format!("trigger_lru_eviction panicked: {pk:?}"));
-                    }
-                    self.drain(&crate::oracles::StepInfo::other("trigger_lru"));
-                }
-                Step::SetLru { cap } => {
-                    let cap = *cap as usize;
-                    let r = self.mutating(|db| set_lru_cap(db, cap));
-                    if let Err(pk) = r {
-                        self.out.viol("unexpected_panic", si, format!("set_lru_capacity panicked: {pk:?}"));
-                    }
-                    let mut info = crate::oracles::StepInfo::other("set_lru");
-                    info.lru_cap = Some(cap);
-                    self.drain(&info);
-                }
-                Step::InternOutside { t, v } => {
-                    let (t, v) = (*t as usize, *v);
-                    let db = self.db();
-                    let r = catch_unwind(AssertUnwindSafe(|| {
-                        let h = intern_any(db, t, v);
-                        db.sh().push(Ev::Intern { t: t % 4, v, id: h.id().as_bits(), in_query: false });
-                        h.v(db)
-                    }));
-                    match r {
-                        Ok(got) if got == v => {}
-                        Ok(got) => self.out.viol("value_mismatch", si, format!("interned {v} outside a query, read back {got}")),
-                        Err(p) => match panic_kind(&p) {
-                            PK::Injected(..) => self.out.bump("fault_panic_reached_caller"),
-                            pk => self.out.viol("unexpected_panic", si, format!("intern outside panicked: {pk:?}")),
-                        },
-                    }
-                    self.drain(&crate::oracles::StepInfo::other("intern_outside"));
-                }
-                Step::Accumulated { n, arg } => {
-                    // bring the root up to date with a plain request first (accumulated() does the
-                    // same fetch internally), then read the accumulated values
-                    self.do_query(*n as usize, *arg, false, false);
-                    crate::oracles::accumulated_step(&mut self, *n as usize, *arg)
-                }
-                Step::LocalCancelQuery { .. } | Step::SnapshotRestore | Step::Hold { .. } => {
-                    crate::oracles::special_step(&mut self, st.clone());
-                }
+                break;
+            }
+            if self.stop_run {
+                break;
             }
             if self.out.viol.len() > 8 {
                 break;
